@@ -754,6 +754,8 @@ func (t *Teamserver) SendEvent(id string, pk packager.Package) error {
 		client := value.(*Client)
 		client.Mutex.Lock()
 
+		// a client that stopped reading must not block event distribution forever
+		_ = client.Connection.SetWriteDeadline(time.Now().Add(10 * time.Second))
 		err = client.Connection.WriteMessage(websocket.BinaryMessage, buffer.Bytes())
 		if err != nil {
 			client.Mutex.Unlock()
